@@ -407,12 +407,12 @@ func runDet(c *Case, e *evalCtx) *detResult {
 			if !stopped {
 				stopped = true
 				q := append([]int{}, fifo...)
-				out = vh.GuardTimeout(watchdog, func() {
+				out = vh.GuardTimeout(3*watchdog, func() {
 					snd.StopForVerif()
 					snd.RunForVerif()
 				})
 				if out.Timeout {
-					e.prop("stop:loop-does-not-return", "op %d: the background loop did not return within %v of cancellation", i, watchdog)
+					e.prop("stop:loop-does-not-return", "op %d: the background loop did not return within %v of cancellation", i, 3*watchdog)
 					broke = true
 				} else {
 					left := snd.Queue.Size()
